@@ -124,10 +124,14 @@ def main(run):
             for _ in range(10):
                 spec = mapgen.gen_pair(run.rng, quirks=(i % 10 == 9))
                 sty0, dty0 = mh.root_types(spec, spec["root"])
-                if len(mapgen.nil_positions(spec, sty0)) >= 2 or len(mapgen.nil_positions(spec, dty0)) >= 2:
+                w0 = spec["flags"]["way"]     # only the side a generated direction READS counts
+                if (w0 != "fromonly" and len(mapgen.nil_positions(spec, sty0)) >= 2) or \
+                   (w0 != "toonly" and len(mapgen.nil_positions(spec, dty0)) >= 2):
                     break
         p = mh.Pair(i, spec)
         p.cases, st = gen_cases(run, spec, budget)
+        p.max_positions = max(st["positions"]) if st["positions"] else 0
+        p.is_corpus = i < len(fixed)
         stats["exhaustive"] += st["exhaustive"]
         stats["sampled"] += st["sampled"]
         positions += st["positions"]
@@ -188,7 +192,7 @@ def main(run):
     cov = {
         "evaluations": ncases,
         "distinct_nontrivial": len(distinct),
-        "rule": ("%d src/dest pairs (the 16 corpus pairs + random pairs of harness/mapgen.py, as in C05); for the root type and "
+        "rule": ("%d src/dest pairs (the 18 corpus pairs + random pairs of harness/mapgen.py, as in C05); for the root type and "
                  "every inner mapped type, in each generated direction: all 2^k assignments of nil/non-nil to the k nil-able "
                  "positions of the input (pointers, embedded pointers at depth 1 and 2, slices, maps, the first two elements of "
                  "slices of pointers/structs, recursively through sub-structs) when k <= 6, otherwise none/all/each single/each "
@@ -203,6 +207,10 @@ def main(run):
         "roots_exhaustive_patterns": stats["exhaustive"], "roots_sampled_patterns": stats["sampled"],
         "nil_positions_per_root": dict(sorted(collections.Counter(positions).items())),
         "roots_with_zero_positions": sum(1 for k in positions if k == 0),
+        "pairs_where_both_sides_have_zero_positions": {
+            "random": sum(1 for p in pairs if not p.is_corpus and p.max_positions == 0),
+            "corpus": sum(1 for p in pairs if p.is_corpus and p.max_positions == 0)},
+        "max_positions_per_pair": dict(sorted(collections.Counter(p.max_positions for p in pairs).items())),
         "receiver_twins_compared": ntwins,
         "cases_certified_by_theorem": ncases - len(uncert) - hop_cases,
         "cases_in_pointer_mapper_pairs_not_certified": hop_cases,
